@@ -53,7 +53,8 @@ def main():
     sec = open(os.path.join(V, 'notes', 'design-section10.md')).read()
     r2 = os.path.join(V, 'notes', 'round2-notes.md')
     r3 = os.path.join(V, 'notes', 'round3-notes.md')
-    rounds = (open(r2).read() if os.path.exists(r2) else '') + (open(r3).read() if os.path.exists(r3) else '')
+    r4 = os.path.join(V, 'notes', 'round4-notes.md')
+    rounds = (open(r2).read() if os.path.exists(r2) else '') + (open(r3).read() if os.path.exists(r3) else '') + (open(r4).read() if os.path.exists(r4) else '')
     sec = sec.replace('@@RULES@@', rules_text()).replace('@@SEEDS@@', seeds_table()).replace('@@ROUND2@@', rounds)
     # live counts
     muts = sum(len(json.load(open(f))) for f in glob.glob(os.path.join(V, 'mutants', 'C*.json')))
